@@ -222,6 +222,22 @@ partial def twoVertexStarts : Geom → List Pt
   | .collection gs => gs.flatMap twoVertexStarts
   | _ => []
 
+/-- end points of open `LineString`s (≥ 3 coordinates) that occur again among the member's own non-endpoint
+vertices — a repeated first/last coordinate, or a path returning to an end point (the K1b class: the
+vertex-based choice can only return a vertex, and this vertex is a boundary point) -/
+partial def endVerticesAmongInner : Geom → List Pt
+  | .lineString cs => innerEnds cs
+  | .multiLineString ls => ls.flatMap innerEnds
+  | .collection gs => gs.flatMap endVerticesAmongInner
+  | _ => []
+where innerEnds (cs : List Pt) : List Pt :=
+  match cs.head?, cs.getLast? with
+  | some f, some l =>
+    if cs.length < 3 || f == l then [] else
+    let inner := (cs.drop 1).dropLast
+    [f, l].filter (fun e => inner.any (· == e))
+  | _, _ => []
+
 /-- The property clauses on the implementation's output. -/
 def propIp (g : Geom) (o : IpOut) : String :=
   match o with
@@ -237,6 +253,7 @@ def propIp (g : Geom) (o : IpOut) : String :=
       | .inside => "PASS"
       | .onBoundary =>
         if (twoVertexStarts g).any (· == c) then "FAIL:start-point-of-two-vertex-line-is-boundary"
+        else if (endVerticesAmongInner g).any (· == c) then "FAIL:inner-vertex-coincides-with-end-point"
         else "FAIL:boundary-point-though-interior-exists"
 
 /-! ##### the admissible outcomes under near-ties
